@@ -99,18 +99,24 @@ RCP<const Basic> pow(const RCP<const Basic> &a, const RCP<const Basic> &b)
         return a;
 
     if (eq(*a, *zero)) {
-        if (is_a_Number(*b)
-            and rcp_static_cast<const Number>(b)->is_positive()) {
-            return zero;
-        } else if (is_a_Number(*b)
-                   and rcp_static_cast<const Number>(b)->is_negative()) {
-            return ComplexInf;
+        if (is_a_Number(*b)) {
+            // 0**b is decided by the sign of the real part of b
+            RCP<const Number> re = rcp_static_cast<const Number>(b);
+            if (is_a_Complex(*re))
+                re = down_cast<const ComplexBase &>(*re).real_part();
+            if (re->is_positive()) {
+                return zero;
+            } else if (re->is_negative()) {
+                return ComplexInf;
+            } else {
+                return Nan;
+            }
         } else {
             return make_rcp<const Pow>(a, b);
         }
     }
 
-    if (eq(*a, *one) and not is_a_Number(*b))
+    if (eq(*a, *one) and (not is_a_Number(*b) or is_a<Complex>(*b)))
         return one;
     if (eq(*a, *minus_one)) {
         if (is_a<Integer>(*b)) {
